@@ -407,6 +407,17 @@ def _do_rewrite(source: str, rewrite: _Rewrite, *, fix_function_name: str = "") 
             return source
 
         candidate = source[: old.start] + new_code + source[old.end :]
+        if new_code.strip() and code.startswith("(") and code.endswith(")"):
+            # A generator expression that is the only argument of a call shares its parentheses
+            # with the call, so the replacement needs parentheses of its own: sum(x for x in y)
+            candidate_parenthesized = source[: old.start] + "(" + new_code + ")" + source[old.end :]
+            if (
+                core.is_valid_python(candidate)
+                and core.is_valid_python(candidate_parenthesized)
+                and not _sources_equivalent(candidate, candidate_parenthesized)
+            ):
+                candidate = candidate_parenthesized
+
         if new_code or core.is_valid_python(candidate):
             choice = candidate
         else:
